@@ -5,7 +5,7 @@ import json, sys
 CHECKS = {
  "C01": dict(
    technique="differential testing against an independent reference decoder over generated valid documents, labelled faults and byte/line/digit mutants (proptest-driven, shrinking); cross-front-end agreement",
-   text="Generated valid documents must be accepted, labelled faults rejected, and ~1M (quick) / 20M (thorough) mutants of generated and corpus documents get the verdict of an independent TOML 1.0.0 reference decoder; all four front ends must agree. Sampled exploration with an explicit oracle; U1/limit classes skipped and counted.",
+   text="Generated valid documents must be accepted, labelled faults rejected, and ~1M (quick) / 20M (thorough) mutants of generated and corpus documents get the verdict of an independent TOML 1.0.0 reference decoder; all four front ends must agree; documents nested 1..63 deep through any composition of arrays, inline tables, dotted keys and header paths, also after hundreds of shallow siblings, must be accepted. Sampled exploration with an explicit oracle; U1/limit classes skipped and counted.",
    note="trusts the harness' reference decoder, re-calibrated on all 562 toml-test 1.0.0 fixtures at every run (exit 2 on disagreement)",
    design="4/C01"),
  "C02": dict(
@@ -20,12 +20,12 @@ CHECKS = {
    design="4/C03"),
  "C09": dict(
    technique="exhaustive small-scope enumeration of statement sequences against a reference state machine of the definition rules; plus proptest random longer sequences",
-   text="Every sequence of <= 3 (quick) / 4 (thorough) statements out of 98 over paths <= 3 on {a,b}, a second scope on {a,b,c}, every inline table in a stated scope, plus 100k/3M random sequences of 5-12 statements: verdict and merged tree (order included) must equal those of the reference definition rules. Exhaustive inside the stated scope.",
+   text="Every sequence of <= 3 (quick) / 4 (thorough) statements out of 98 over paths <= 3 on {a,b}, a second scope on {a,b,c}, every inline table in two stated scopes (paths <= 3 and <= 4 segments), plus 1.5M/10M random sequences of 5-12 statements and 1M/8M short sequences with paths of up to 5 segments and recursively generated inline tables: verdict and merged tree (order included) must equal those of the reference definition rules. Exhaustive inside the stated scope.",
    note="trusts the transition table of DESIGN.md Appendix A as implemented in tomlref (calibrated on the toml-test fixtures); U1.b sequences skipped and counted",
    design="4/C09, Appendix A"),
  "C10": dict(
    technique="exhaustive small-scope enumeration of strings + proptest random strings; round-trip oracle through library parser and independent reference decoder",
-   text="Exhaustive over all strings of length <= 5 (quick) / 6 (thorough) on a 14-class alphabet, plus 100k/2M random long strings: every offered quoting style must parse (alone and in 6 document positions) and decode to the original, by the library and by the reference decoder. Exhaustive inside the stated scope, sampled beyond it.",
+   text="Exhaustive over all strings of length <= 5 (quick) / 6 (thorough) on a 14-class alphabet, runs of each character at 30 lengths up to 1025 around the powers of two, plus 100k/2M random long strings: every offered quoting style must parse (alone and in 6 document positions) and decode to the original, by the library and by the reference decoder. Exhaustive inside the stated scope, sampled beyond it.",
    note="trusts the harness' reference decoder (calibrated on the 562 toml-test 1.0.0 fixtures at every run of C01) and rustc/std",
    design="4/C10"),
 }
@@ -38,12 +38,12 @@ CHECKS["C14"] = dict(
    design="4/C14")
 CHECKS["C20"] = dict(
    technique="recording visitors compared with an independent pre-order walk of the by-construction model (proptest-driven); metamorphic rewrite (+1 on every integer) checked on the decoded tree and on verbatim fragments",
-   text="For generated documents and the valid fixtures, the event log of a recording Visit and VisitMut (defaults everywhere) must equal the walk computed from the expected model alone: every kv, item, table, inline table, array, array of tables, value and typed scalar exactly once, in order. A visit_integer_mut override must change all integers and nothing else. Sampled exploration.",
+   text="For generated documents and the valid fixtures, the event log of a recording Visit and VisitMut (defaults everywhere) must equal the walk computed from the expected model alone: every kv, item, table, inline table, array, array of tables, value and typed scalar exactly once, in order. A visit_integer_mut override must change all integers and nothing else; the crates' own overriding visitors (DocumentFormatter, Pretty) must change layout only. Sampled exploration.",
    note="expected model comes from the harness' renderer; documents with specification-ambiguous key order (U2.c) are skipped and counted",
    design="4/C20")
 CHECKS["C15"] = dict(
    technique="fault injection and mutation over generated documents with an independent line/column oracle; exhaustive truncation of fixtures; typed-decode errors provoked at a chosen path by a seed type, location known by construction",
-   text="Every rejection by DocumentMut, ImDocument, toml::from_str and toml_edit::de::from_str must carry a non-empty message, a span inside the document on char boundaries, render without panic with `line L, column C` equal to an independent character-based computation and the right echoed line; typed mismatches must be located at the offending item's source range (text available) or by key path (DocumentMut). Sampled exploration plus exhaustive truncation of all fixtures <= 600 bytes.",
+   text="Every rejection by DocumentMut, ImDocument, toml::from_str and toml_edit::de::from_str must carry a non-empty message, a span inside the document on char boundaries, render without panic with `line L, column C` equal to an independent character-based computation and the right echoed line; typed mismatches - with every node on the way asked for plainly or through deserialize_option / newtype_struct / struct - must be located at the offending item's source range (text available) or by key path (DocumentMut). Sampled exploration plus exhaustive truncation of all fixtures <= 600 bytes.",
    note="expected positions follow the wording of the property; known finding F14 (empty message for a stray CR, pinned by the repository's own tests) is tolerated under a narrow signature",
    design="4/C15")
 CHECKS["C04"] = dict(
@@ -53,7 +53,7 @@ CHECKS["C04"] = dict(
    design="4/C04")
 CHECKS["C05"] = dict(
    technique="grammar-based generation of nesting combinations executed in worker processes on 2 MiB threads (debug and release builds); limit search per construct; delta-reduction of failures",
-   text="Every single nesting construct is swept over depths 1..200 (limit must exist, no holes, <= 79 accepted) and 1.5k (quick) / 40k (thorough) multiplicative combinations are parsed, printed, debug-printed, cloned, dropped and deserialized on a 2 MiB thread in a debug and a release build: the worker must survive and any accepted document must have decoded depth <= 256.",
+   text="Every single nesting construct is swept over depths 1..200 (limit must exist, no holes, <= 79 accepted) and 1.5k (quick) / 40k (thorough) multiplicative combinations are parsed, printed, debug-printed, cloned, dropped and deserialized on a 2 MiB thread in a debug and a release build: the worker must survive and any accepted document must have decoded depth <= 256; wide documents (79..600 shallow siblings of 14 kinds, then a construct nested 40 or 70 deep) must be accepted.",
    note="stack behaviour is that of this toolchain/platform (x86-64 Linux); the depth bound 256 is the harness' constant, above anything additive composition of per-construct limits of 80 can reach",
    design="4/C05")
 CHECKS["C11"] = dict(
@@ -68,7 +68,7 @@ CHECKS["C12"] = dict(
    design="4/C12")
 CHECKS["C06"] = dict(
    technique="tree-first generation built through generated API routes (proptest over choice tapes); print-parse round-trip against the built model under the stable-partition rule; purity (print twice / clone)",
-   text="100k (quick) / 2M (thorough) trees with adversarial keys and leaves are assembled through a generated mix of every construction route of toml_edit and as toml::Table/Value; the printed text must be valid (library and reference), decode to the same tree with the same order (values before tables as a stable partition; empty array of tables = absent) and be a pure function of the structure.",
+   text="100k (quick) / 2M (thorough) trees with adversarial keys and leaves are assembled through a generated mix of every construction route of toml_edit, converted between standard and inline form in both directions, and built as toml::Table/Value; the printed text must be valid (library and reference), decode to the same tree with the same order (values before tables as a stable partition; empty array of tables = absent) and be a pure function of the structure.",
    note="Item::None, raw decor setters, set_dotted/implicit/position and non-value items under value containers are excluded preconditions",
    design="4/C06")
 CHECKS["C16"] = dict(
@@ -78,17 +78,17 @@ CHECKS["C16"] = dict(
    design="4/C16")
 CHECKS["C08"] = dict(
    technique="stateful model-based testing: generated edit histories on a generated document, interpreted against a plain ordered tree plus a set of untouched source fragments; oracles after every edit; histories shrink as one value",
-   text="30k (quick) / 600k (thorough) histories of 1-25 structural edits (21 kinds over tables, inline tables, arrays, arrays of tables) on documents whose every line carries a unique marker: after every edit the printed text must parse, decode to the model with the same edit applied (values before sections, hidden empties), the structure must read back as the model, and every untouched `key = value # marker` source fragment must still be present verbatim. A probe run exercises known finding F18.",
+   text="30k (quick) / 600k (thorough) histories of 1-25 structural edits (21 kinds over tables, inline tables, arrays, arrays of tables) on documents whose every line carries a unique marker: after every edit the printed text must parse, decode to the model with the same edit applied (values before sections, hidden empties), the structure must read back as the model, and every untouched `key = value # marker` source fragment must still be present verbatim. A probe run exercises known finding F18, recognised by a constructive signature (renumbering table positions in visiting order makes the failure disappear).",
    note="orders the specification/API leave open are compared as sets and listed in DESIGN.md (children of a parent with a header-less table, sections after sort_values, parent of an array of tables that lost its first element); main run excludes F18's trigger by construction",
    design="4/C08")
 CHECKS["C07"] = dict(
    technique="generated values of a derived-type family through seven serializers; oracle = independent model serializer (expected TOML tree by the documented mapping) + deserialize-back equality; proptest-driven with shrinking",
-   text="60k (quick) / 1.5M (thorough) values of ~20 root types covering every serde shape TOML supports and the documented unsupported ones: each serializer must return an error exactly for the unsupported shapes, otherwise produce valid text (reference) that decodes to the independently computed tree and deserializes back to an equal value (NaN-total equality).",
+   text="60k (quick) / 1.5M (thorough) values of ~20 root types covering every serde shape TOML supports and the documented unsupported ones: each serializer (five text serializers, Value/Table::try_from, and the two ValueSerializers for single values) must return an error exactly for the unsupported shapes, otherwise produce valid text (reference) that decodes to the independently computed tree and deserializes back to an equal value (NaN-total equality).",
    note="the mapping serde data model -> TOML is the harness' reading of the documentation (serdefam::expected_node); None as a map value and tuple/struct variants at the root are treated as left open (stated in DESIGN.md)",
    design="4/C07")
 CHECKS["C13"] = dict(
    technique="differential testing of nine decoding routes and three value deserializers on serialized and re-spelt texts of generated typed values, and of nine routes on generated documents; try_from vs serialize-then-parse",
-   text="For 20k (quick) / 500k (thorough) typed values: on each of four serialized texts and on a re-spelt text (same data, generated other layout/spelling) all nine routes must succeed, agree and return the value; Value/Table::try_from must equal parsing the serialized text. 30k/600k generated documents are decoded into toml::Value through nine routes and compared with the by-construction tree.",
+   text="For 20k (quick) / 500k (thorough) typed values: on each of four serialized texts and on a re-spelt text (same data, generated other layout/spelling) all nine routes must succeed, agree and return the value; on perturbed documents the routes that succeed must agree; Value/Table::try_from must equal parsing the serialized text; single values of any shape (newtypes, scalars, sequences, tuples, enums as root targets) go through three value writers and four value readers. 30k/600k generated documents are decoded into toml::Value through nine routes and compared with the by-construction tree.",
    note="known finding F5 (date-times through the stand-alone toml::Value serializer/deserializer) is tolerated under its signature",
    design="4/C13")
 CHECKS["C17"] = dict(
@@ -98,7 +98,7 @@ CHECKS["C17"] = dict(
    design="4/C17")
 CHECKS["C18"] = dict(
    technique="differential testing across cargo feature configurations: a seeded battery of generated documents and API-built structures run through a battery program compiled once per configuration; canonical dumps compared across configurations and with by-construction expectations",
-   text="6 (quick) / 14 (thorough) feature configurations of toml_edit and toml are built from /repo (a configuration that does not build is a violation) and run on 2000 battery items: dumps of decoded trees, API-built structures and printed text must be identical across configurations with the capability (and equal to the harness' own expectation for by-construction items), toml's key order must be insertion order exactly under preserve_order and sorted without, over-limit nesting must flip from reject to accept under unbounded only.",
+   text="6 (quick) / 14 (thorough) feature configurations of toml_edit and toml are built from /repo (a configuration that does not build is a violation) and run on 2000 battery items (documents, API-built structures, toml::Table call histories, edit histories on larger reordered documents): dumps of decoded trees, of the span of every key and item, of API-built structures and of printed text must be identical across configurations with the capability (and equal to the harness' own expectation for by-construction items), toml's key order must be insertion order exactly under preserve_order and sorted without, over-limit nesting must flip from reject to accept under unbounded only.",
    note="the battery program shares no code with the harness; each configuration has its own target directory under harness/target-c18",
    design="4/C18")
 CHECKS["C19"] = dict(
